@@ -45,6 +45,7 @@ def same_paths(got, ref):
 
 def run(rep, tier):
     cx = Ctx(rep, "std")
+    rep.where_by_opcode = cx.opcode_where(cx.roles.interpreter())
     im = imodel.InterpModel(cx)
     if not im.ok:
         return
